@@ -420,4 +420,74 @@ theorem newPlan_spec (kc : Consts) (files : List IndexFile) :
     obtain ⟨p, hp, ei, eid, em, _⟩ := hfrom p' hmem (by simp [g, hm])
     exact ⟨p, hp, by rw [ei, hidx]; omega, by rw [em, hm], by rw [eid, e]⟩
 
+/-- position `p.index` of a plan pack is a valid position of the plan's index-file list. -/
+theorem plan_index_valid {typed : Bool} {kc : Consts} {o : Opts} {files : List IndexFile} {used : List Key}
+    {existing : List (Nat × Nat)} {d : Decided} (h : plan typed kc o files used existing = some d)
+    {p : PPack} (hp : p ∈ d.packs) :
+    ∃ f ix, files[p.index]? = some f ∧ d.indexes[p.index]? = some ix ∧ ix.id = f.id ∧
+      ∃ q ∈ (if p.mark then f.del else f.packs), q.id = p.id ∧ q.blobs = p.blobs := by
+  obtain ⟨hi, hc, _, _, _⟩ := plan_shape h
+  obtain ⟨_, g2, _, g4, _⟩ := newPlan_spec kc files
+  obtain ⟨p0, hp0, e⟩ := mem_of_core_eq hc hp
+  simp only [PPack.core, Prod.mk.injEq] at e
+  obtain ⟨f, hf, q, hq, hqid, hqb⟩ := g2 p0 hp0
+  rw [e.2.1] at hf
+  rw [e.2.2.2.1] at hq
+  have hlen : p.index < files.length := by
+    rcases Nat.lt_or_ge p.index files.length with h' | h'
+    · exact h'
+    · rw [List.getElem?_eq_none h'] at hf; cases hf
+  have hlen2 : p.index < d.indexes.length := by
+    have := congrArg List.length g4
+    simp only [List.length_map] at this
+    rw [hi, this]; exact hlen
+  refine ⟨f, d.indexes[p.index], hf, List.getElem?_eq_getElem hlen2, ?_, q, hq, by rw [hqid, e.2.2.1], by rw [hqb, e.2.2.2.2.1]⟩
+  have h1 : (d.indexes.map (·.id))[p.index]? = (files.map (·.id))[p.index]? := by rw [hi, g4]
+  simp only [List.getElem?_map, hf, List.getElem?_eq_getElem hlen2, Option.map_some, Option.some.injEq] at h1
+  exact h1
+
+/-- **`filter_index_files` keeps every index file that lists a pack which does not simply stay**: if a pack's
+decision is neither `Keep` nor (without instant-delete) `KeepMarked`, its index file is rebuilt.  In particular the
+index file of every pack to repack / mark / recover / delete is rebuilt. -/
+theorem rebuilt_of_not_kept {typed : Bool} {kc : Consts} {o : Opts} {files : List IndexFile} {used : List Key}
+    {existing : List (Nat × Nat)} {d : Decided} (h : plan typed kc o files used existing = some d)
+    {p : PPack} (hp : p ∈ d.packs) (hk : p.todo ≠ .keep) (hm : o.instantDelete = true ∨ p.todo ≠ .keepMarked) :
+    d.rebuild.contains p.index = true := by
+  obtain ⟨f, ix, _, hix, _, _⟩ := plan_index_valid h hp
+  obtain ⟨_, _, hr, _, _⟩ := plan_shape h
+  rw [hr]
+  simp only [List.contains_iff_mem]
+  apply mem_filterIndexes_of_mustModify kc _ _ _ _ ix hix
+  unfold mustModify
+  simp only [Bool.or_eq_true, List.any_eq_true]
+  right
+  refine ⟨p, List.mem_filter.mpr ⟨hp, by simp⟩, ?_⟩
+  simp only [Bool.and_eq_true, bne_iff_ne, ne_eq, Bool.or_eq_true]
+  exact ⟨hk, hm⟩
+
+/-! ### statistics -/
+
+theorem sumBy_foldl (f : PPack → Nat) : ∀ (l : List PPack) (a : Nat),
+    l.foldl (fun a p => a + f p) a = a + sumBy f l
+  | [], a => by simp [sumBy]
+  | p :: l, a => by
+    simp only [sumBy, List.foldl_cons, Nat.zero_add]
+    rw [sumBy_foldl f l (a + f p), sumBy_foldl f l (f p)]
+    simp only [sumBy]
+    omega
+
+theorem sumBy_cons (f : PPack → Nat) (p : PPack) (l : List PPack) : sumBy f (p :: l) = f p + sumBy f l := by
+  simp only [sumBy, List.foldl_cons, Nat.zero_add]
+  rw [sumBy_foldl f l (f p)]
+  rfl
+
+theorem sumBy_add_le (f g h : PPack → Nat) (hle : ∀ p, f p + g p ≤ h p) :
+    ∀ l : List PPack, sumBy f l + sumBy g l ≤ sumBy h l
+  | [] => by simp [sumBy]
+  | p :: l => by
+    rw [sumBy_cons, sumBy_cons, sumBy_cons]
+    have := sumBy_add_le f g h hle l
+    have := hle p
+    omega
+
 end Rustic.Prune
